@@ -315,7 +315,7 @@ class Livetime(
         # Map the indices to the cum_ontime_bins array. Off-time indices will
         # be mapped to its prior on-time interval.
         #                               Odd indices.     Even indices.
-        idxs = np.where(odd_idxs_mask, (onoff_idxs-1)/2, onoff_idxs/2 - 1)
+        idxs = np.where(odd_idxs_mask, (onoff_idxs-1)//2, onoff_idxs//2 - 1)
         # At this point, there could be indices of value -1 from MJD values
         # prior to the first on-time interval. So we just move all the indices
         # by one.
@@ -338,7 +338,7 @@ class Livetime(
             cum_ontime_bins[idxs])
 
         if not issequence(mjd):
-            return np.asscalar(livetimes)
+            return livetimes.item()
 
         return livetimes
 
